@@ -1143,7 +1143,120 @@ def w_tophits(failure, tier):
     return dict(found=False, note='top_hits: %d requests with extreme size / from answered without panic; %d windows identical over 4 segmentations' % (2 * len(reqs), len(wins)))
 
 
+def w_explain_budget(failure, tier):
+    """pruned executors, more matches than the page asks for: the same request with explain off and on must report the same
+    hits, scores, match total and cursor (the budget the pruning executor works with must not depend on explain)"""
+    docs = []
+    for i in range(90):
+        body = ("rust " * (1 + (i * 7) % 5)) + ("engine " * ((i * 3) % 4)) + "filler " * (i % 6)
+        docs.append({"_id": "d%02d" % i, "body": body.strip()})
+    queries = ["rust", {"type": "bool", "should": [{"type": "term", "field": "body", "value": "rust"}, {"type": "term", "field": "body", "value": "engine"}]}]
+    reqs = []
+    for q in queries:
+        for ex in ("wand", "bmw"):
+            for limit in (1, 2, 5):
+                for explain in (False, True):
+                    reqs.append(dict(REQ_BASE, query=q, limit=limit, execution=ex, explain=explain))
+    out, err = drive_search({"schema": None, "batches": [docs[:50], docs[50:]], "requests": reqs})
+    if out is None:
+        return dict(found=False, note='search driver failed: %s' % err)
+    n = 0
+    for i in range(0, len(reqs), 2):
+        a, b = out[i], out[i + 1]
+        if 'ok' not in a or 'ok' not in b:
+            if ('ok' in a) != ('ok' in b):
+                return dict(found=True, cmd='%s search' % BIN, input=_json.dumps(reqs[i]['query']), observed='explain off: %s / explain on: %s' % (str(a)[:150], str(b)[:150]), expected='same outcome')
+            continue
+        n += 1
+        va = dict(hits=[(h['doc_id'], h['score']) for h in a['ok']['hits']], total=a['ok'].get('total_hits_estimate'), cursor=a['ok'].get('next_cursor'))
+        vb = dict(hits=[(h['doc_id'], h['score']) for h in b['ok']['hits']], total=b['ok'].get('total_hits_estimate'), cursor=b['ok'].get('next_cursor'))
+        if va != vb:
+            return dict(found=True, cmd='%s search <<< hex(json)' % BIN,
+                        input='90 documents in 2 segments; query %s, limit %d, execution %s, run with explain false and true' % (_json.dumps(reqs[i]['query']), reqs[i]['limit'], reqs[i]['execution']),
+                        observed='explain off: %s ; explain on: %s' % (va, vb), expected='identical hits, scores, match total and cursor')
+    return dict(found=False, note='explain and the pruning budget: %d request pairs (wand / bmw, limit 1-5, 90 documents in 2 segments) agree in hits, scores, match total and cursor' % n)
+
+
+def w_boost(failure, tier):
+    """a boost scales the score of the query it sits on by exactly that factor, wherever the query sits: wrapping a scoring
+    query Q in bool{boost: B, must: [Q]} or dis_max{boost: B, queries: [Q]}, or setting Q's own boost to B, multiplies every
+    hit's score by B (up to float rounding)"""
+    docs = []
+    for i in range(10):
+        docs.append({"_id": "d%02d" % i, "body": ("rust " * (1 + i % 3)) + ("engine " * (i % 2)) + "search", "title": "rust book" if i % 2 else "engine manual",
+                     "k": "en" if i % 3 else "de", "pop": float(1 + i)})
+    add = {"keyword_fields": [{"name": "k", "stored": True, "indexed": True, "fast": True}],
+           "numeric_fields": [{"name": "pop", "i64": False, "fast": True, "stored": True}],
+           "text_fields": [{"name": "title", "analyzer": "default", "search_analyzer": None, "stored": True, "indexed": True, "nullable": False}]}
+    t = lambda v: {"type": "term", "field": "body", "value": v}
+    inners = [
+        ("term", t("rust")),
+        ("prefix", {"type": "prefix", "field": "body", "value": "eng"}),
+        ("wildcard", {"type": "wildcard", "field": "body", "value": "ru*"}),
+        ("regex", {"type": "regex", "field": "body", "value": "rus."}),
+        ("query_string", {"type": "query_string", "query": "rust engine"}),
+        ("multi_match", {"type": "multi_match", "query": "rust engine", "fields": [{"field": "body"}, {"field": "title", "boost": 2.0}]}),
+        ("dis_max", {"type": "dis_max", "tie_breaker": 0.3, "queries": [t("rust"), t("engine")]}),
+        ("bool", {"type": "bool", "should": [t("rust"), t("engine")]}),
+        ("constant_score", {"type": "constant_score", "filter": {"KeywordEq": {"field": "k", "value": "en"}}}),
+        ("rank_feature", {"type": "rank_feature", "field": "pop"}),
+        ("function_score", {"type": "function_score", "query": t("rust"), "functions": [{"type": "field_value_factor", "field": "pop", "factor": 1.0}], "boost_mode": "sum"}),
+        ("function_score/multiply", {"type": "function_score", "query": t("rust"), "functions": [{"type": "weight", "weight": 1.5}]}),
+        ("script_score", {"type": "script_score", "query": t("rust"), "script": "_score + pop * 0.1"}),
+    ]
+    skip = set((failure or {}).get('skip_cases') or [])
+    reqs, meta = [], []
+    for (name, q) in inners:
+        if name in skip:
+            continue
+        for B in (1.0, 2.0, 0.5, 3.0):
+            own = dict(q, boost=B)
+            for (shape, wrapped) in (("bool", {"type": "bool", "must": [q], "boost": B}), ("dis_max", {"type": "dis_max", "queries": [q], "boost": B}), ("own", own),
+                                     ("bool>dis_max", {"type": "bool", "boost": B, "must": [{"type": "dis_max", "queries": [q]}]})):
+                reqs.append(dict(REQ_BASE, query=wrapped, limit=50))
+                meta.append((name, shape, B, wrapped))
+    out, err = drive_search({"schema": None, "schema_add": add, "batches": [docs[:5], docs[5:]], "requests": reqs})
+    if out is None:
+        return dict(found=False, note='search driver failed: %s' % err)
+    base = {}
+    n = 0
+    for (m, o) in zip(meta, out):
+        name, shape, B, wrapped = m
+        if 'ok' not in o:
+            continue
+        sc = dict((h['doc_id'], h['score']) for h in o['ok']['hits'])
+        if B == 1.0:
+            base[(name, shape)] = sc
+            continue
+        ref = base.get((name, shape))
+        if ref is None:
+            continue
+        n += 1
+        for d, v in sorted(ref.items()):
+            got = sc.get(d)
+            want = B * v
+            if got is None or abs(got - want) > 1e-4 * max(1.0, abs(want)):
+                return dict(found=True, cmd='%s search <<< hex(json)' % BIN,
+                            input='10 documents in 2 segments; query %s, compared with the same query at boost 1' % _json.dumps(wrapped),
+                            observed='document %s scores %s at boost %s and %s at boost 1' % (d, got, B, v), expected='%s (= %s x %s)' % (want, B, v))
+    return dict(found=False, note='boosts: %d (query kind, placement, boost) comparisons scale every hit score by exactly the boost' % n)
+
+
 GENERATORS = {
+    ('U36', 'dismax_arm'): w_boost,
+    ('U36', 'bool_arm'): w_boost,
+    ('U36', 'function_score_arm'): w_boost,
+    ('U36', 'script_score_arm'): w_boost,
+    ('U36', 'constant_score_arm'): w_boost,
+    ('U36', 'rank_feature_arm'): w_boost,
+    ('U36', 'term_arm'): w_boost,
+    ('U36', 'prefix_arm'): w_boost,
+    ('U36', 'wildcard_arm'): w_boost,
+    ('U36', 'regex_arm'): w_boost,
+    ('U36', 'query_string_arm'): w_boost,
+    ('U36', 'multi_match_arm'): w_boost,
+    ('U36', 'push_term_group'): w_boost,
+    ('U21', 'rank_limit_choice'): w_explain_budget,
     ('U33', 'merge_capacity'): w_tophits,
     ('U33', 'finish_window'): w_tophits,
     ('U33', 'merge_window'): w_tophits,
